@@ -12,6 +12,7 @@ mod c14;
 mod c16;
 mod interp;
 mod craft;
+mod e2e;
 mod gen_ss;
 mod hs;
 mod session;
